@@ -12,7 +12,7 @@ NEED_ACTIONS = {
     "C07": ["DoSetSrc", "DoCycle"],
     "C08": ["DoInject", "DoFailDriver", "DoWatchdog", "DoSimFault", "DoCycle", "DoRefusedCycle"],
 }
-SCHED = {"executed-sequence", "task-events", "overruns", "program-counters"}
+SCHED = {"executed-sequence", "task-events", "overruns", "program-counters", "fb-instance-state"}
 
 
 def safe_bits(cfg):
